@@ -24,11 +24,18 @@ tests_line = t.stdout.strip().splitlines()[-1]
 assert " passed" in tests_line and "failed" not in tests_line, tests_line
 demo = os.path.join(wt, "_seed", "demo.py")
 d1 = run(["/venv/bin/python", demo], cwd=wt, env=env, timeout=900)
-run(["git", "-C", wt, "stash"])
+# NB: `git stash` is shared by all worktrees of a repository -- revert / re-apply the patch instead
+patch_file = os.path.join(wt, "_seed", "_confirm.diff")
+open(patch_file, "w").write(diff)
+r_ = run(["git", "-C", wt, "apply", "-R", patch_file])
+assert r_.returncode == 0, r_.stderr
 try:
+    assert not run(["git", "-C", wt, "diff"]).stdout.strip()
     d0 = run(["/venv/bin/python", demo], cwd=wt, env=env, timeout=900)
 finally:
-    run(["git", "-C", wt, "stash", "pop"])
+    r_ = run(["git", "-C", wt, "apply", patch_file])
+    assert r_.returncode == 0, r_.stderr
+    os.remove(patch_file)
 assert d1.returncode != 0, "demo does not fail with the change"
 assert d0.returncode == 0, "demo does not pass without the change: " + d0.stdout[-300:] + d0.stderr[-300:]
 out = os.path.join("/verif/seeded", name)
